@@ -170,7 +170,8 @@ def run_shard(ctx: Ctx) -> None:
     # second grammar: compositional type expressions (nullable anything, arrays of arrays, maps of maps / arrays / models,
     # nested inline objects, free-form positions, named maps, named primitive aliases)
     for b in range(4 if ctx.quick else 80):
-        allow = {"object_with_extras"} if ctx.rng.random() < 0.25 else set()
+        x = ctx.rng.random()
+        allow = {"object_with_extras"} if x < 0.2 else ({"free_form_empty_schema"} if x < 0.4 else set())
         run_doc(ctx, {"doc": richgen.generate(ctx.rng, allow=allow), "n": ctx.shard * 100000 + 50000 + b, "phase": "rich"})
     # third workload: the exhaustive shape catalogue (every wrapper(wrapper(leaf)) up to two wrappers; thorough: three)
     cat = list(enumerate(shapes.all_shapes(2 if ctx.quick else 3)))
